@@ -473,7 +473,15 @@ impl<SD, E: Exfiltrator> SignalIterator<SD, E> {
 
             match self.signals.borrow_mut().poll_pending(has_signals) {
                 Ok(Some(pending)) => self.iter = pending,
-                Ok(None) => return PollResult::Pending,
+                Ok(None) => {
+                    // poll_pending() also returns None, without consulting the callback, when it
+                    // finds the instance closed. The caller has not been given anything to wait
+                    // for in that case, so report the close instead of Pending.
+                    if self.signals.borrow_mut().handle.is_closed() {
+                        return PollResult::Closed;
+                    }
+                    return PollResult::Pending;
+                }
                 Err(err) => return PollResult::Err(err),
             }
         }
